@@ -25,6 +25,7 @@ CONSTANTS
     TimerMays,     \* subset of BOOLEAN: TRUE = the threshold can elapse during the call
     EagerCaller,   \* TRUE: the caller receives as soon as something is queued (generator only)
     WithHist,      \* TRUE: record hist (behaviour export)
+    LazyCaller,    \* TRUE: the caller reaches its select only after both workers are finished (generator only)
     EnvCancel,     \* TRUE: the caller's context may be cancelled
     EnvDeadline    \* TRUE: the workers' own deadline may pass during the call
 
@@ -176,6 +177,7 @@ Cancel ==
 
 CallerRecv ==
     /\ cpc = "recv" /\ chan # <<>>
+    /\ (LazyCaller => ppc = "done" /\ spc = "end")
     /\ chan' = Tail(chan)
     /\ IF Head(chan) # "nil"
          THEN cpc' = "done" /\ result' = Head(chan) /\ UNCHANGED nrecv
@@ -187,6 +189,7 @@ CallerRecv ==
 
 CallerCtx ==
     /\ cpc = "recv" /\ ctxDone
+    /\ (LazyCaller => ppc = "done" /\ spc = "end")
     /\ (EagerCaller => chan = <<>>)
     /\ cpc' = "done" /\ result' = "ctx"
     /\ UNCHANGED <<order, standby, timerMay, ppc, pout, spc, sout, primDone, primFailed, chan, timerFired, ddlFired,
@@ -254,7 +257,7 @@ WorkersEnd == <>(ppc = "done" /\ spc = "end")
 AllDone == cpc = "done" /\ ppc = "done" /\ spc = "end" /\ chan = <<>>
 AllDoneOrCtx == ppc = "done" /\ spc = "end" /\ cpc = "done"
 Emit == AllDoneOrCtx =>
-    PrintT(<<"BEH", ToJson([standby |-> standby, timerMay |-> timerMay, order |-> order,
+    PrintT(<<"BEH", ToJson([standby |-> standby, timerMay |-> timerMay, order |-> order, lazy |-> LazyCaller,
                             result |-> result, steps |-> hist])>>)
 
 ViewNoHist == <<order, standby, timerMay, ppc, pout, spc, sout, primDone, primFailed, chan,
